@@ -121,5 +121,16 @@ PROPS["C12"] = dict(
     assumptions=["internal/ref/avccref follows ISO/IEC 14496-15 section 5.2.4.1.1 and 5.3.4.2"],
 )
 
+PROPS["C08"] = dict(
+    pkg="c08", level="fault_enumeration",
+    rule="for each generated RTMP session / FLV file every cut offset 0..len, every failing read call, every transport write byte count and write call is enumerated (evaluations = injected faults); "
+         "plus generated nestings of the errors package constructors; a fault is non-trivial when it lands strictly inside an item; per-check rules under coverage.checks",
+    quick=dict(timeout=900), thorough=dict(shards=16, timeout=3000),
+    technique="fault injection enumerated over all cut offsets / call indices of rapid-generated sessions and files; oracle: errors.Cause identity + prefix-of-completely-transferred-items computed from the reference encoders' offsets",
+    level_text="Per generated session or file the fault positions are enumerated completely (all byte offsets, all call indices); the sessions/files themselves are sampled (<= 3 KiB so that every offset is affordable).",
+    level_note="Trusts the reference dechunker / FLV parser for item boundaries. A cut inside the 4-byte PreviousTagSize of an FLV tag may or may not return that tag (both accepted). Short writes without an error are not injected.",
+    assumptions=["item boundaries come from internal/ref/rtmpref and internal/ref/flvref", "the transport reports a failure on the call that fails and on every later call"],
+)
+
 NOT_APPLICABLE = {}
 HOOK_COMMITS = []
